@@ -32,10 +32,17 @@ import (
 
 const c13Inv = uint64(InvalidIndex)
 
+// the names of the scopes CreateDefaultScopes must create (ACPI 5.3), root first
+var c13DefaultScopeNames = []string{"\\\x00\x00\x00", "_GPE", "_PR_", "_SB_", "_SI_", "_TZ_"}
+
 type c13Ref struct {
 	kids    [][]int
 	parent  []int
 	alive   []bool
+	// names is the monitor's OWN record of what every object is called: the name handed to
+	// newNamedObject, the zero name for newObject (a reused slot must not keep the name of the
+	// freed object), the ACPI names for the default scopes.  Lookups are judged against it.
+	names   [][amlNameLen]byte
 	nfreed  int
 	tainted bool
 }
@@ -339,7 +346,7 @@ func c13ParseExpr(e []byte) c13Expr {
 func (c *c13Run) child(scope int, name []byte) (found int, dup bool) {
 	found = -1
 	for _, k := range c.ref.kids[scope] {
-		n := c.tree.objPool[k].name
+		n := c.ref.names[k]
 		if n[0] == name[0] && n[1] == name[1] && n[2] == name[2] && n[3] == name[3] {
 			if found != -1 {
 				dup = true
@@ -468,8 +475,10 @@ func (c *c13Run) run(nums []uint64) []uint64 {
 			}
 			if pos == uint64(oldLen) {
 				ref.kids, ref.parent, ref.alive = append(ref.kids, nil), append(ref.parent, -1), append(ref.alive, true)
+				ref.names = append(ref.names, name)
 			} else {
 				ref.alive[pos], ref.kids[pos], ref.parent[pos] = true, nil, -1
+				ref.names[pos] = name
 				ref.nfreed--
 			}
 			if uint64(o.opcode) != opc&0xffff || (tag == 1 && o.name != name) {
@@ -575,6 +584,11 @@ func (c *c13Run) run(nums []uint64) []uint64 {
 			}
 			for i := oldLen; i < len(tree.objPool); i++ {
 				ref.kids, ref.parent, ref.alive = append(ref.kids, nil), append(ref.parent, -1), append(ref.alive, true)
+				var dn [amlNameLen]byte
+				if k := i - oldLen; k < len(c13DefaultScopeNames) {
+					copy(dn[:], c13DefaultScopeNames[k])
+				}
+				ref.names = append(ref.names, dn)
 			}
 			for i := oldLen + 1; i < len(tree.objPool); i++ {
 				ref.kids[oldLen] = append(ref.kids[oldLen], i)
